@@ -71,7 +71,8 @@ class SympySimulator(Backend):
         elif isinstance(initial_statevector, Qubit):
             python_statevector = initial_statevector
         elif isinstance(initial_statevector, (np.ndarray, np.matrix)):
-            python_statevector = matrix_to_qubit(initial_statevector)
+            # matrix_to_qubit expects a column: also accept the 1D arrays the other backends take and return
+            python_statevector = matrix_to_qubit(np.asarray(initial_statevector).reshape(-1, 1))
         else:
             raise ValueError(f"The {type(initial_statevector)} type for initial_statevector is not supported.")
 
